@@ -181,4 +181,72 @@ theorem lKeepAll_refines (c : Conv) (hc : ∀ x, c.unwrap (c.wrap x) = x) (keep 
   obtain ⟨u1, u2, u3⟩ := unfList_mask (xs.map fun x => keep (c.wrap x)) ys xs q1
   exact ⟨_, rfl, u1, fun x hx => .inl (u2 x hx), fun n1 _ => u3 n1⟩
 
+/-- **`view[i] = v`** (fresh `v`, index in range): the JSON list at the view's location holds `jv`
+at that position -/
+theorem lSet_refines (c : Conv) (h h' : Heap) (id : Nat) (i : Int) (v : Val) (root : Val) (j jv : J) (loc : List Name)
+    (hi : DocInv h root j) (hw : walk (hview h) root loc = some (.ref id))
+    (hv : UnfJ h jv (c.unwrap v)) (hvn : (fpJ h jv (c.unwrap v)).Nodup)
+    (hfresh : ∀ x ∈ fpJ h jv (c.unwrap v), x ∉ fpJ h j root)
+    (hop : lSet c h id i v = some h') :
+    ∃ j', J.updateAt (jSetIdx i jv) j loc = some j' ∧ DocInv h' root j' := by
+  unfold lSet at hop
+  cases hl : listOf h id with
+  | none => simp [hl] at hop
+  | some xs =>
+    simp only [hl, Option.bind_some, listSet] at hop
+    have ho : h[id]? = some (.list xs) := by
+      unfold listOf at hl
+      split at hl
+      · rename_i ys hy; simp only [Option.some.injEq] at hl; subst hl; exact hy
+      · simp at hl
+    cases hni : normIndex xs.length i with
+    | none => simp [hni] at hop
+    | some p =>
+      simp only [hni, Option.map_some, Option.some.injEq] at hop
+      subst hop
+      have hidv : id ∉ fpJ h jv (c.unwrap v) := fun hm => hfresh id hm (walk_mem_fp h id loc root j hi.unf hw)
+      obtain ⟨r1, r2⟩ := unf_frame h id (.list (xs.set p (c.unwrap v))) jv _ hv hidv
+      refine listobj_refold h id xs _ (fpJ h jv (c.unwrap v)) (jSetIdx i jv) root j loc hi ho hw hfresh ?_
+      intro ys hlen q1
+      obtain ⟨u1, u2, u3⟩ := unfList_set r1 ys xs p q1
+      refine ⟨ys.set p jv, by simp [jSetIdx, hlen, hni], u1, ?_, ?_⟩
+      · intro x hx
+        rcases u2 x hx with h1 | h1
+        · exact .inl h1
+        · rw [r2] at h1; exact .inr ⟨h1, fun e => hidv (e ▸ h1)⟩
+      · intro n1 n2
+        exact u3 n1 (by rw [r2]; exact hvn) (fun x hx => n2 x (by rw [← r2]; exact hx))
+
+/-- **`view.pop(i)`**: the list side is `del view[i]`; the value handed back is the wrapped element -/
+theorem lPop_refines (c : Conv) (h h' : Heap) (id : Nat) (i : Int) (r : Val) (root : Val) (j : J) (loc : List Name)
+    (hi : DocInv h root j) (hw : walk (hview h) root loc = some (.ref id)) (hop : lPop c h id i = some (h', r)) :
+    lDel h id i = some h' ∧ lGet c h id i = some r ∧
+      ∃ j', J.updateAt (jDelIdx i) j loc = some j' ∧ DocInv h' root j' := by
+  have hd : lDel h id i = some h' ∧ lGet c h id i = some r := by
+    unfold lPop at hop
+    unfold lDel lGet
+    cases hl : listOf h id with
+    | none => simp [hl] at hop
+    | some xs =>
+      simp only [hl, Option.bind_some, listDel] at hop ⊢
+      cases hni : normIndex xs.length i with
+      | none => simp [hni] at hop
+      | some p =>
+        simp only [hni] at hop ⊢
+        cases hg : xs[p]? with
+        | none => simp [hg] at hop
+        | some x =>
+          simp only [hg, Option.map_some, Option.some.injEq, Prod.mk.injEq] at hop ⊢
+          refine ⟨hop.1, ?_⟩
+          simp [hg, hop.2]
+  exact ⟨hd.1, hd.2, lDel_refines h h' id i root j loc hi hw hd.1⟩
+
+/-- **`remove_all(is_remove)`** = `keep_all(not ∘ is_remove)`, on the tree -/
+theorem lRemoveAll_refines (c : Conv) (hc : ∀ x, c.unwrap (c.wrap x) = x) (rm : Val → Bool) (h h' : Heap) (id : Nat)
+    (xs : List Val) (root : Val) (j : J) (loc : List Name)
+    (hi : DocInv h root j) (hw : walk (hview h) root loc = some (.ref id)) (ho : h[id]? = some (.list xs))
+    (hop : lRemoveAll c rm h id = some h') :
+    ∃ j', J.updateAt (jKeep (xs.map fun x => !rm (c.wrap x))) j loc = some j' ∧ DocInv h' root j' :=
+  lKeepAll_refines c hc (fun x => !rm x) h h' id xs root j loc hi hw ho hop
+
 end Treepath
